@@ -161,6 +161,23 @@ def reused(tf, c, t=None):
     return tf
 
 
+def outlives(tf, x, c, others=None):
+    """what a call returned must outlive later calls of the same object (one case in two: the object is applied to other inputs before the
+    result is read; a transform that hands out a buffer it re-uses shows up)"""
+    r = tf(x)
+    if vid(c) % 2 == 0:
+        for o in (others if others is not None else other_trees()):
+            try:
+                tf(o)
+            except Exception:        # noqa: BLE001 - only the first result is judged
+                pass
+    return r
+
+
+def other_branches():
+    return list(other_trees()[0].get_branches())
+
+
 def scribble(obj):
     """overwrite a result in place (every column of a tree / table): a later call with the same input must not hand out, or depend on, this object's storage"""
     if hasattr(obj, "ndata"):
